@@ -64,6 +64,7 @@ type posRunner struct {
 	qAwards    map[string]*big.Int // the model's own award and burn queues (see model())
 	qBurns     map[string]*big.Int
 	inPrelude  bool
+	other0     string // total held in other denominations after InitChain
 }
 
 func (r *posRunner) want(p string) bool { return r.props[p] }
@@ -213,6 +214,23 @@ func (r *posRunner) invariants(call string, v chain.View, notes []string) {
 		// address arrives after the distribution; nothing mints the other denominations)
 		if o := v.Other[chain.FeeAddr]; o != "" {
 			r.report("C10", "inv:fee-collector-not-empty-after-distribution|"+ns, fmt.Sprintf("after BeginBlock at height %d the fee collector still holds %s", r.height, o))
+		}
+	}
+	// C02: nothing mints or burns the other denominations, so their total over all accounts stays
+	// what it was after InitChain
+	if r.want("C02") {
+		total := sdk.Coins{}
+		for _, o := range v.Other {
+			if o != "" {
+				if c, err := sdk.ParseCoins(o); err == nil {
+					total = total.Add(c)
+				}
+			}
+		}
+		if call == "InitChain" {
+			r.other0 = total.String()
+		} else if total.String() != r.other0 {
+			r.report("C02", fmt.Sprintf("inv:other-denominations-total-changed|%s|%s", call, ns), fmt.Sprintf("after %s at height %d the accounts hold [%s] in other denominations, after InitChain [%s]; nothing mints or burns them", call, r.height, total.String(), r.other0))
 		}
 	}
 	// C02 (i),(ii)
